@@ -94,6 +94,15 @@ class BookkeepingVisitor(ast.NodeVisitor):
                         self.containing_ast_by_id[id(subfield)] = node
                         if isinstance(node, ast.stmt):
                             self.parent_stmt_by_id[id(subfield)] = node
+                        elif (
+                            isinstance(subfield, ast.stmt)
+                            and self._current_containing_stmt is not None
+                        ):
+                            # bodies of except handlers and match cases: the parent statement
+                            # is the try / match statement the handler or case belongs to
+                            self.parent_stmt_by_id[id(subfield)] = (
+                                self._current_containing_stmt
+                            )
         # the statement containing a child is the one containing this node (or this node):
         # a nested statement visited earlier must not leak into later siblings
         # (decorators, return annotations, except-handler types, later match cases)
